@@ -379,7 +379,8 @@ fn main() {
         }
         "fault" => {
             let per: usize = arg_val(&args, "--per-case").and_then(|s| s.parse().ok()).unwrap_or(300);
-            attack::suite_fault(&mut ctx, seed, n, per)
+            let only: Option<usize> = arg_val(&args, "--only-case").and_then(|s| s.parse().ok());
+            attack::suite_fault(&mut ctx, seed, n, per, only, args.iter().any(|a| a == "--aftermath-each"))
         }
         "root" => {
             let class = arg_val(&args, "--ops")
